@@ -203,6 +203,8 @@ class Ruler(Generic[RuleFuncTv]):
         if isinstance(names, str):
             names = [names]
         result: list[str] = []
+        # invalidate first: an unknown name raises after earlier names were applied
+        self.__cache__ = None
         for name in names:
             idx = self.__find__(name)
             if (idx < 0) and ignoreInvalid:
@@ -211,7 +213,6 @@ class Ruler(Generic[RuleFuncTv]):
                 raise KeyError(f"Rules manager: invalid rule name {name}")
             self.__rules__[idx].enabled = True
             result.append(name)
-        self.__cache__ = None
         return result
 
     def enableOnly(
@@ -243,6 +244,8 @@ class Ruler(Generic[RuleFuncTv]):
         if isinstance(names, str):
             names = [names]
         result = []
+        # invalidate first: an unknown name raises after earlier names were applied
+        self.__cache__ = None
         for name in names:
             idx = self.__find__(name)
             if (idx < 0) and ignoreInvalid:
@@ -251,7 +254,6 @@ class Ruler(Generic[RuleFuncTv]):
                 raise KeyError(f"Rules manager: invalid rule name {name}")
             self.__rules__[idx].enabled = False
             result.append(name)
-        self.__cache__ = None
         return result
 
     def getRules(self, chainName: str = "") -> list[RuleFuncTv]:
